@@ -5,7 +5,8 @@
    under which key the result verifies, the layout of the 128-byte form, length / structure / HRP checks of every encoding,
    the derivation wrappers, and the EMIP-3 container.  Only statements here; proofs are in Crypto/*Proofs.v. *)
 From CSL Require Import Base.Prelude Base.Hex Cbor.Head Crypto.Iface Crypto.Wrappers Crypto.WrappersProofs
-  Crypto.Emip3 Crypto.Emip3Proofs Crypto.Toy Crypto.Obs Crypto.ObsProofs.
+  Crypto.Emip3 Crypto.Emip3Proofs Crypto.Toy Crypto.Obs Crypto.ObsProofs Crypto.Bech32Inst Crypto.WitnessCbor Crypto.WitnessCborProofs.
+From CSL Require Addr.Bech32 Addr.Bech32Proofs Codec.Schema Ledger.Schemas.
 Local Open Scope N_scope.
 
 (* the laws are jointly satisfiable (by a cryptographically worthless instance): no theorem below is vacuous *)
@@ -16,6 +17,13 @@ Theorem C12_laws_satisfiable : exists P : prims,
   law_base32_roundtrip P /\ law_bech32_roundtrip P.
 Proof. exists toy. exact toy_laws. Qed.
 Print Assumptions C12_laws_satisfiable.
+
+(* the two bech32 laws are no premises any more: they hold for the executable model of the bech32 crate (proved by C11 in
+   Addr/Bech32Proofs.v), whatever the other primitives are *)
+Theorem C12_bech32_laws_proved : forall P : prims,
+  law_base32_roundtrip (with_bech32 P) /\ law_bech32_roundtrip (with_bech32 P).
+Proof. intros P. exact (conj (concrete_base32_roundtrip P) (concrete_bech32_roundtrip P)). Qed.
+Print Assumptions C12_bech32_laws_proved.
 
 (* ---- witnesses: the signed message is exactly the hash bytes; the witness verifies under the key it carries ---- *)
 Theorem C12_witness_signs_hash : forall P : prims,
@@ -44,6 +52,30 @@ Proof.
   apply Forall_forall; intros x Hx; apply repeat_spec in Hx; subst; reflexivity.
 Qed.
 
+(* ---- the same about the SERIALIZED witnesses (Vkeywitness::to_bytes / BootstrapWitness::to_bytes, written with the C01 schemas):
+        byte layout, the C01 decoder reads back exactly the public key and the signature over the hash, and they verify ---- *)
+Theorem C12_witness_bytes_sign_hash : forall P : prims,
+  law_sign_normal P -> law_sign_extended P -> law_shapes P -> law_xpub_layout P ->
+  (forall h sk rest, sk_signable sk ->
+     let b := vkeywitness_to_bytes (make_vkey_witness P h sk) in
+     b = [130; 88; 32] ++ sk_to_public P sk ++ [88; 64] ++ sk_sign P sk h /\
+     Schema.dec Schemas.Vkeywitness (b ++ rest) =
+       Ok (Schema.VList [Schema.VBytes (sk_to_public P sk); Schema.VBytes (sk_sign P sk h)], rest) /\
+     pk_verify P (sk_to_public P sk) h (sk_sign P sk h) = true) /\
+  (forall h attrs k rest, xprv_valid k -> bytes_ok attrs -> len attrs < two64 ->
+     let w := make_icarus_bootstrap_witness P h attrs k in
+     let b := bootstrapwitness_to_bytes w in
+     b = [132; 88; 32] ++ ed_ext_pub P (firstn 64 k) ++ [88; 64] ++ ed_sign_ext P (firstn 64 k) h ++
+         [88; 32] ++ skipn 64 k ++ encode_head 2 (len attrs) ++ attrs /\
+     Schema.dec Schemas.BootstrapWitness (b ++ rest) = Ok (bootstrapwitness_val w, rest) /\
+     pk_verify P (bw_vkey w) h (bw_sig w) = true).
+Proof.
+  intros P LN LE LS LL. split.
+  - intros h sk rest S. exact (vkey_witness_bytes P h sk rest LN LE LS S).
+  - intros h attrs k rest V Ba La. exact (icarus_witness_bytes P h attrs k rest LE LS LL V Ba La).
+Qed.
+Print Assumptions C12_witness_bytes_sign_hash.
+
 (* ---- 128-byte form: secret (64) ++ public key (32) ++ chain code (32); only inputs of exactly 128 bytes are read ---- *)
 Theorem C12_xprv128_roundtrip : forall P : prims, law_shapes P -> law_xpub_layout P ->
   (forall k, xprv_valid k ->
@@ -68,9 +100,9 @@ Theorem C12_xprv128_unfixed_refuted :
 Proof. exact from_128_xprv_unfixed_refuted. Qed.
 Print Assumptions C12_xprv128_unfixed_refuted.
 
-(* ---- bytes / hex / bech32 of every key and signature type round-trip ---- *)
 Definition C12_types : list ktype := [T_sk_normal; T_sk_ext; T_pk; T_sig; T_xprv; T_xpub; T_legacy].
-Theorem C12_key_encodings_roundtrip : forall P : prims, law_base32_roundtrip P -> law_bech32_roundtrip P ->
+(* any codec obeying the two bech32 laws (kept as the generic form) *)
+Theorem C12_key_encodings_roundtrip_any_codec : forall P : prims, law_base32_roundtrip P -> law_bech32_roundtrip P ->
   (forall T bs, In T C12_types -> kt_valid T bs ->
      kt_from_binary T bs = Ok bs /\ kt_from_hex T (kt_to_hex bs) = Ok bs /\
      exists s, kt_to_bech32 P T bs = Ok s /\ kt_from_bech32 P T s = Ok bs) /\
@@ -89,6 +121,33 @@ Proof.
   - intros n prefix bs Hh Hw. exact (hash_bech32_roundtrip P n prefix bs L1 L2 Hh Hw true).
   - exact (hash_from_bech32_never_panics P).
 Qed.
+Print Assumptions C12_key_encodings_roundtrip_any_codec.
+
+(* ---- bytes / hex / bech32 of every key and signature type round-trip.  The bech32 codec is the executable model of the bech32
+        crate (Addr/Bech32.v, laws proved in Addr/Bech32Proofs.v): NO premise about bech32 is left; [P] only supplies the (unused
+        here) cryptographic primitives ---- *)
+Theorem C12_key_encodings_roundtrip : forall P : prims,
+  (forall T bs, In T C12_types -> kt_valid T bs ->
+     kt_from_binary T bs = Ok bs /\ kt_from_hex T (kt_to_hex bs) = Ok bs /\
+     exists s, kt_to_bech32 (with_bech32 P) T bs = Ok s /\ kt_from_bech32 (with_bech32 P) T s = Ok bs /\
+               Bech32.b32_encode (kt_hrp T) bs = Some s) /\
+  (forall k, sk_valid k ->
+     sk_from_hex (hex (sk_as_bytes k)) = Ok k /\
+     exists s, sk_to_bech32 (with_bech32 P) k = Ok s /\ sk_from_bech32 (with_bech32 P) s = Ok k) /\
+  (forall n prefix bs, hrp_valid prefix = true -> wfb n bs ->
+     exists s, hash_to_bech32 (with_bech32 P) prefix bs = Ok s /\ hash_from_bech32 (with_bech32 P) n s = Ok bs) /\
+  (forall n s, hash_from_bech32 (with_bech32 P) n s <> Panic).
+Proof.
+  intros P.
+  destruct (C12_key_encodings_roundtrip_any_codec (with_bech32 P) (concrete_base32_roundtrip P) (concrete_bech32_roundtrip P))
+    as (A & B & C & D).
+  split; [|exact (conj B (conj C D))].
+  intros T bs HT Hv. destruct (A T bs HT Hv) as (A1 & A2 & s & A3 & A4). split; [exact A1|]. split; [exact A2|].
+  exists s. split; [exact A3|]. split; [exact A4|].
+  unfold kt_to_bech32, to_bech32_from_bytes in A3. cbn [with_bech32 b32_encode b32_to_base32] in A3.
+  unfold Bech32.b32_encode. destruct (Bech32.encode (kt_hrp T) (Bech32.to_base32 bs)); cbn [opt] in A3; try discriminate.
+  injection A3 as <-. reflexivity.
+Qed.
 Print Assumptions C12_key_encodings_roundtrip.
 Example C12_encodings_premises : kt_valid T_xprv toy_root /\ In T_xprv C12_types.
 Proof. split; [apply xprv_valid_kt; exact toy_root_ok|cbn; tauto]. Qed.
@@ -98,7 +157,7 @@ Proof. exact hash_from_bech32_unfixed_refuted. Qed.
 Print Assumptions C12_hash_bech32_unfixed_refuted.
 
 (* ---- a text encoded under another human-readable part is rejected ---- *)
-Theorem C12_hrp_checked : forall P : prims, law_bech32_roundtrip P ->
+Theorem C12_hrp_checked_any_codec : forall P : prims, law_bech32_roundtrip P ->
   (forall T h bs s, hrp_valid h = true -> bytes_ok bs -> h <> kt_hrp T ->
      b32_encode P h (b32_to_base32 P bs) = Some s -> kt_from_bech32 P T s = Err) /\
   (forall h bs s, hrp_valid h = true -> bytes_ok bs -> h <> hrp_ed25519_sk -> h <> hrp_ed25519e_sk ->
@@ -107,6 +166,30 @@ Proof.
   intros P L2. split.
   - intros T h bs s Hh Hb Hne E. exact (kt_hrp_checked P T h bs s L2 Hh Hb Hne E).
   - intros h bs s Hh Hb N1 N2 E. exact (sk_hrp_checked P h bs s L2 Hh Hb N1 N2 E).
+Qed.
+Print Assumptions C12_hrp_checked_any_codec.
+
+(* concrete decoder: ANY text that the bech32 decoder accepts with a human-readable part other than the type's own is rejected by the
+   library's prefix comparison (whatever produced the text), and in particular every text encoded under another valid HRP.
+   (The decoder lower-cases an all-upper-case text, so "XPRV1…" is accepted for xprv: bech32 rule.) *)
+Theorem C12_hrp_checked : forall P : prims,
+  (forall T s h d, Bech32.decode s = Ok (h, d) -> h <> kt_hrp T -> kt_from_bech32 (with_bech32 P) T s = Err) /\
+  (forall s h d, Bech32.decode s = Ok (h, d) -> h <> hrp_ed25519_sk -> h <> hrp_ed25519e_sk -> sk_from_bech32 (with_bech32 P) s = Err) /\
+  (forall T s, Bech32.decode s = Err -> kt_from_bech32 (with_bech32 P) T s = Err) /\
+  (forall T h bs s, hrp_valid h = true -> bytes_ok bs -> h <> kt_hrp T ->
+     Bech32.b32_encode h bs = Some s -> kt_from_bech32 (with_bech32 P) T s = Err).
+Proof.
+  intros P.
+  assert (A : forall T s h d, Bech32.decode s = Ok (h, d) -> h <> kt_hrp T -> kt_from_bech32 (with_bech32 P) T s = Err).
+  { intros T s h d D N. unfold kt_from_bech32, try_from_bech32_to_bytes. cbn [with_bech32 b32_decode]. rewrite D. cbn [opt].
+    rewrite (list_eqb_neq _ _ N). reflexivity. }
+  split; [exact A|]. split; [|split].
+  - intros s h d D N1 N2. unfold sk_from_bech32. rewrite (A T_sk_ext s h d D N2), (A T_sk_normal s h d D N1). reflexivity.
+  - intros T s D. unfold kt_from_bech32, try_from_bech32_to_bytes. cbn [with_bech32 b32_decode]. rewrite D. reflexivity.
+  - intros T h bs s Hh Hb N E.
+    apply (proj1 (C12_hrp_checked_any_codec (with_bech32 P) (concrete_bech32_roundtrip P)) T h bs s Hh Hb N).
+    cbn [with_bech32 b32_encode b32_to_base32]. unfold Bech32.b32_encode in E.
+    destruct (Bech32.encode h (Bech32.to_base32 bs)); try discriminate. exact E.
 Qed.
 Print Assumptions C12_hrp_checked.
 
@@ -189,15 +272,16 @@ Print Assumptions C12_emip3_rejects_modified_tag.
 Theorem C12_model_satisfies_judge : forall P : prims,
   law_shapes P /\ law_sign_normal P /\ law_sign_extended P /\ law_xpub_layout P /\ law_soft_derivation P /\
   law_hard_refused P /\ law_normalize3 P /\ law_pbkdf2_bip39_shape P /\
-  law_aead_roundtrip P /\ law_aead_shapes P /\ law_aead_authentic P /\ law_aead_plain_by_ct P /\
-  law_base32_roundtrip P /\ law_bech32_roundtrip P ->
+  law_aead_roundtrip P /\ law_aead_shapes P /\ law_aead_authentic P /\ law_aead_plain_by_ct P ->
+  let Q := with_bech32 P in
   forall c, case_wf c ->
-  has_panic (model_obs P c) = false /\ stmt P c (model_obs P c) = true /\
-  judge P c (model_obs P c) =
-    (if stmt_tested c (model_obs P c) then Holds
-     else if known_class P c =? 0 then FailsUnknown else FailsKnown (known_class P c)).
+  has_panic (model_obs Q c) = false /\ stmt Q c (model_obs Q c) = true /\
+  judge Q c (model_obs Q c) =
+    (if stmt_tested c (model_obs Q c) then Holds
+     else if known_class Q c =? 0 then FailsUnknown else FailsKnown (known_class Q c)).
 Proof.
-  intros P L c H. destruct (model_satisfies_stmt P L c H) as [A B]. exact (conj A (conj B (judge_on_model P L c H))).
+  intros P L Q c H. pose proof (all_laws_concrete P L) as LQ.
+  destruct (model_satisfies_stmt Q LQ c H) as [A B]. exact (conj A (conj B (judge_on_model Q LQ c H))).
 Qed.
 Print Assumptions C12_model_satisfies_judge.
 (* sequences of calls in one process: the model of a sequence is the list of the models of the steps taken alone, so any
@@ -206,12 +290,12 @@ Print Assumptions C12_model_satisfies_judge.
 Theorem C12_sequences_stepwise : forall P : prims,
   law_shapes P /\ law_sign_normal P /\ law_sign_extended P /\ law_xpub_layout P /\ law_soft_derivation P /\
   law_hard_refused P /\ law_normalize3 P /\ law_pbkdf2_bip39_shape P /\
-  law_aead_roundtrip P /\ law_aead_shapes P /\ law_aead_authentic P /\ law_aead_plain_by_ct P /\
-  law_base32_roundtrip P /\ law_bech32_roundtrip P ->
+  law_aead_roundtrip P /\ law_aead_shapes P /\ law_aead_authentic P /\ law_aead_plain_by_ct P ->
+  let Q := with_bech32 P in
   forall l, Forall case_wf l ->
-  model_seq P l = map (model_obs P) l /\
-  (forallb (fun c => stmt_tested c (model_obs P c)) l = true -> judge_seq P l (model_seq P l) = Holds).
-Proof. intros P L l H. exact (conj eq_refl (judge_seq_on_model P L l H)). Qed.
+  model_seq Q l = map (model_obs Q) l /\
+  (forallb (fun c => stmt_tested c (model_obs Q c)) l = true -> judge_seq Q l (model_seq Q l) = Holds).
+Proof. intros P L Q l H. exact (conj eq_refl (judge_seq_on_model Q (all_laws_concrete P L) l H)). Qed.
 Print Assumptions C12_sequences_stepwise.
 
 Example C12_case_wf_nontrivial : case_wf (CSign 1 (repeat 7 64) [1; 2] [3] (repeat 8 64)) /\ case_wf (CX128 toy_root).
